@@ -5,6 +5,7 @@ package ociunify
 import (
 	"context"
 	"errors"
+	"fmt"
 
 	"cuelabs.dev/go/oci/ociregistry"
 )
@@ -14,6 +15,16 @@ var errC16Close = errors.New("close failed")
 func VerifC16_ConcurrentRead() {
 	m0 := &c15member{id: 0, ok: verifBool("member0ok"), digest: "sha256:aaaa", waitCancel: verifBool("member0waitsForCancel")}
 	m1 := &c15member{id: 1, ok: verifBool("member1ok"), digest: "sha256:aaaa", waitCancel: verifBool("member1waitsForCancel")}
+	// a failing member may fail with an error of its own that wraps a context error (its
+	// own timeout): that is a member failure, not a cancellation by the caller
+	switch verifChoose("failKind", 3) {
+	case 1:
+		m0.failErr = fmt.Errorf("member request timed out: %w", context.DeadlineExceeded)
+		m1.failErr = m0.failErr
+	case 2:
+		m0.failErr = fmt.Errorf("member gave up: %w", context.Canceled)
+		m1.failErr = m0.failErr
+	}
 	u := New(m0.registry(), m1.registry(), &Options{ReadPolicy: ReadConcurrent})
 	ctx, cancel := context.WithCancel(context.Background())
 	defer cancel()
